@@ -1,5 +1,5 @@
 SPECIFICATION Spec
 CONSTANTS
   BacktrackMode = "table"
-  ScoreMode = "nodes"
+  ScoreMode = "nodes2"
 CHECK_DEADLOCK FALSE
